@@ -15,8 +15,22 @@ class Corrupted(QuadProblem):
     def __init__(self, spec, corrupt, **kw):
         super().__init__(spec, **kw)
         self.corrupt = corrupt          # None or (which, r, c, delta)
+        self.benign = False             # the user's callbacks raise a harmless IEEE flag (an exp that underflows to 0)
+
+    def _flag(self):
+        if self.benign:
+            np.exp(np.array([-1000.0]))
+
+    def obj(self, x):
+        self._flag()
+        return super().obj(x)
+
+    def cons(self, x):
+        self._flag()
+        return super().cons(x)
 
     def obj_grad(self, x):
+        self._flag()
         g = np.array(super().obj_grad(x), dtype=float)
         if self.corrupt and self.corrupt[0] == 0:
             g[self.corrupt[2]] += self.corrupt[3]
@@ -47,6 +61,7 @@ def run_solve(case, check=True, **over):
     from pygradflow.solver import Solver
     spec = Spec.from_json(case["spec"])
     prob = Corrupted(spec, case["corrupt"], fmt=case["fmt"])
+    prob.benign = bool(case.get("benign"))
     flag = DerivCheck.NoCheck
     if check:
         if case["first"]:
@@ -91,7 +106,7 @@ class DerivCheckUnit(Unit):
             y0 = g.vec(spec.m, kmax=4, jmax=1)
             which = r.choice([None, 0, 1, 2, 0, 1, 2]) if spec.m > 0 else r.choice([None, 0, 2, 0, 2])
             corrupt = None
-            atol = r.choice([2.0 ** -4, 2.0 ** -2, 1.0])
+            atol = r.choice([2.0 ** -4, 2.0 ** -2, 1.0, 2.0 ** -8])      # the last one is below sqrt(deriv_pert)
             if which is not None:
                 rr = 0 if which == 0 else (r.randrange(spec.m) if which == 1 else r.randrange(spec.n))
                 cc = r.randrange(spec.n)
@@ -127,7 +142,7 @@ class DerivCheckUnit(Unit):
                 corrupt = [which, rr, cc, delta]
             cases.append({"spec": spec.to_json(), "sc": sc, "corrupt": corrupt, "x0": x0, "y0": y0,
                           "first": r.random() < 0.85, "second": r.random() < 0.85, "eps": 2.0 ** -10, "atol": atol,
-                          "fmt": r.choice(["coo", "csr", "csc", "csc_dup"])})
+                          "fmt": r.choice(["coo", "csr", "csc", "csc_dup"]), "benign": len(cases) % 3 == 2})
         return cases
 
     def impl(self, case):
